@@ -116,6 +116,9 @@ def failure_programs():
         [R({'B': ['falsy'], 'C': ['none']})],
         [R({'C': ['raise:B1']})],
     ], ['failB', 'failBC', 'failA', 'failD', 'noneB', 'falsyB_noneC', 'baseC'])
+    # an exception whose instances are falsy; a CancelledError that the body raises on its own (BaseException)
+    out += variants(rh, [[R({'B': ['raise:E0']})], [R({'C': ['raise:CE']})], [R({'B': ['raise:E0'], 'C': ['raise:CE']})]],
+                    ['falsyexcB', 'cancelexcC', 'falsyB_cancelC'])
     return out
 
 
@@ -151,6 +154,10 @@ def retry_programs():
         [R({'B': ['raise:E2']})],
         [R({'B': ['raise:E1', 'raise:E2']})],
     ], ['e2_dflt', 'e1_e2_dflt'])
+    # a node that asks to be retried after ANY BaseException (and must still not be restarted when the engine stops it)
+    p = P('retry_base', [N('A'), N('B', I('p1', 'A'), attempts=3, delay=0, exceptions=['BaseException']), N('C', I('p1', 'A')),
+                         N('D', I('p1', 'B'), I('p2', 'C'))], 'A', 'D', tags=['retry'])
+    out += variants(p, [[R({'B': ['raise:B1', 'ok']})], [R({})], [R({'B': ['raise:B1', 'raise:E1', 'raise:B1']})]], ['b1_ok', 'ok', 'b1_e1_b1'])
     p = P('retry_two', [N('A'), N('B', I('p1', 'A'), attempts=2, delay=0.2), N('C', I('p1', 'A'), attempts=3, delay=0.1),
                         N('D', I('p1', 'B'), I('p2', 'C'))], 'A', 'D', tags=['retry', 'plain'])
     out += variants(p, [
@@ -162,6 +169,20 @@ def retry_programs():
 
 def switch_programs():
     out = []
+    # a case labelled with a falsy value ('')
+    nodes = [N('A'), N('S', I('p1', 'A')), N('C1', I('p1', 'A')), N('C2', I('p1', 'A')),
+             N('O', SW('p1', 'S', [('', 'C1'), ('l2', 'C2')], name='fl'))]
+    out += variants(P('switch_falsy_label', nodes, 'A', 'O', tags=['switch']),
+                    [[R({'S': ['label:l2']})], [R({'S': ['label:']})], [R({'S': ['label:l2'], 'C1': ['raise:E1']})]],
+                    ['l2', 'empty', 'l2_c1fails'])
+    # two UNNAMED switches decided by the same node, with different cases, for two consumers
+    def U(kw, sw, cases):  # noqa: N802
+        return dict(SW(kw, sw, cases), unnamed=True)
+    nodes = [N('A'), N('S', I('p1', 'A')), N('C1', I('p1', 'A')), N('C2', I('p1', 'A')), N('C3', I('p1', 'A')), N('C4', I('p1', 'A')),
+             N('W1', U('p1', 'S', [('l1', 'C1'), ('l2', 'C2')])), N('W2', U('p1', 'S', [('l1', 'C3'), ('l2', 'C4')])),
+             N('O', I('p1', 'W1'), I('p2', 'W2'))]
+    out += variants(P('switch_two_unnamed', nodes, 'A', 'O', tags=['switch']),
+                    [[R({'S': ['label:l1']})], [R({'S': ['label:l2']})], [R({'S': ['label:l3']})]], ['l1', 'l2', 'unknown'])
     # simple switch: S decides between C1 and C2; consumer O
     nodes = [N('A'), N('S', I('p1', 'A')), N('C1', I('p1', 'A')), N('X', I('p1', 'A')), N('C2', I('p1', 'X')),
              N('O', SW('p1', 'S', [('l1', 'C1'), ('l2', 'C2')], name='sw1'))]
@@ -268,6 +289,28 @@ def switch_programs():
 
 def oneof_programs():
     out = []
+    # a candidate that is also an ordinary input of another node (X): X must get it whether or not the one-of tries it
+    nodes = [N('A'), N('P1', I('p1', 'A')), N('P2', I('p1', 'A')), N('M', OO('p1', ['P1', 'P2'])), N('X', I('p1', 'P2')),
+             N('O', I('p1', 'M'), I('p2', 'X'))]
+    out += variants(P('cand_also_input', nodes, 'A', 'O', tags=['oneof']),
+                    [[R({})], [R({'P1': ['raise:E1']})], [R({'P2': ['raise:E2']})]], ['ok', 'p1fails', 'p2fails'])
+    nodes = [N('A'), N('P1', I('p1', 'A')), N('P2', I('p1', 'A')), N('M', OO('p1', ['P1', 'P2'])), N('X', I('p1', 'P1')),
+             N('O', I('p1', 'X'), I('p2', 'M'))]
+    out += variants(P('cand_also_input_first', nodes, 'A', 'O', tags=['oneof']),
+                    [[R({})], [R({'P1': ['raise:E1']})]], ['ok', 'p1fails'])
+    # ... or of a candidate of another one-of: its failure fails that candidate, it is never delivered as a value
+    nodes = [N('A'), N('P', I('p1', 'A')), N('Q', I('p1', 'A')), N('M', OO('p1', ['P', 'Q'])), N('C1', I('p1', 'P'), I('p2', 'M')),
+             N('C2', I('p1', 'A')), N('O', OO('p1', ['C1', 'C2']))]
+    out += variants(P('cand_input_of_other_candidate', nodes, 'A', 'O', tags=['oneof']),
+                    [[R({'P': ['raise:E1']})], [R({})]], ['pfails', 'ok'])
+    # a one-of inside the selected case of a switch inside a candidate: running out of inner candidates fails the
+    # candidate, not the run
+    nodes = [N('A'), N('K', I('p1', 'A')), N('I1', I('p1', 'A')), N('I2', I('p1', 'A')), N('IN', OO('p1', ['I1', 'I2'])),
+             N('CX', I('p1', 'A')), N('W', SW('p1', 'K', [('l1', 'IN'), ('l2', 'CX')], name='oso')), N('C1', I('p1', 'W')),
+             N('C2', I('p1', 'A')), N('O', OO('p1', ['C1', 'C2']))]
+    out += variants(P('oneof_switch_oneof', nodes, 'A', 'O', tags=['oneof', 'switch']),
+                    [[R({'K': ['label:l1'], 'I1': ['raise:E1'], 'I2': ['raise:E2']})], [R({'K': ['label:l1'], 'I1': ['raise:E1']})]],
+                    ['inner_exhausted', 'inner_fallback'])
     # two candidates, each with a private upstream node
     nodes = [N('A'), N('U1', I('p1', 'A')), N('K1', I('p1', 'U1')), N('U2', I('p1', 'A')), N('K2', I('p1', 'U2')),
              N('O', OO('p1', ['K1', 'K2']))]
